@@ -259,9 +259,32 @@ def signals(p, env, entry, async_):
         ("item-KeyError-defined", "{{ o['k'] is defined }}", "item", KeyError("k"), "False"),
         ("item-TypeError", "[{{ o['k'] }}]", "item", TypeError("k"), "[]"),
         ("item-IndexError", "{{ o['k'] }}|", "item", IndexError("k"), "|"),
+        ("attr-then-item-AttributeError", "[{{ po.nope }}]|{{ po.nope is defined }}", None, None, "[]|False"),
+        ("item-then-attr-AttributeError", "[{{ po['nope'] }}]", None, None, "[]"),
         ("call-StopIteration", "[{{ f() }}]", "call", StopIteration(), "[]"),
     ]
+    class Proxy:
+        """a proxy-style object: unknown attributes AND unknown items are signalled with AttributeError"""
+
+        def __getattr__(self, name):
+            raise AttributeError(name)
+
+        def __getitem__(self, key):
+            raise AttributeError(key)
+
     for label, src, kind, exc, expected in cases:
+        if kind is None:
+            t = env.from_string(src)
+            p.evals += 1
+            try:
+                got = t.render(po=Proxy()) if not async_ else e4.run(t.render_async(po=Proxy()))
+            except Exception as e:  # noqa: BLE001
+                got = ("exc", type(e).__name__)
+            p.sig(("signal", label, async_, str(got)))
+            if got != expected:
+                p.violation(f"C38/signal/{label}", {"msg": f"{src!r} on an object whose __getattr__/__getitem__ raise AttributeError: got {got!r}, documented outcome {expected!r}",
+                                                   "script": "print(%r)\n" % src})
+            continue
         plan0 = e5.Plan(0)
         data = mkdata(plan0, async_)
         t = env.from_string(src)
